@@ -14,6 +14,10 @@ from . import common, tlc
 from .common import Ctx, Outcome, Violation
 
 CLAUSE_OWNER = {"C05": "C05", "C11": "C11", "C12": "C12"}
+OLD_DESIGNS = [("Engine_olddrain.cfg", "NoProblemLost"), ("Engine_oldworkererr.cfg", "NoProblemLost"),
+               ("Stateful_olddrain.cfg", "ProtocolOK"), ("Stateful_oldctrlc.cfg", "ProtocolOK"), ("Stateful_olddrainexec.cfg", "ProtocolOK"),
+               ("Stateful_oldsetup.cfg", "AtMostOneScenarioAfterStop"), ("Stateful_oldworst.cfg", "ProtocolOK"),
+               ("Stateful_mf_error.cfg", "FailureLimit")]
 
 
 def _norm(d: dict) -> dict:
@@ -134,6 +138,9 @@ def expand(ctx: Ctx, pid: str, fam: list[dict], rng: random.Random) -> tuple[lis
         rate_bases = [{"ops": ["ok", "ok", "ok"], "links": "none", "phases": ["coverage", "fuzzing"], "workers": w, "max_failures": 0,
                        "cof": False, "unique": False, "rate": r} for w, r in ([(1, 15), (3, 15)] if quick else [(1, 10), (2, 20), (3, 15), (4, 30), (4, 10)])]
         bases = bases + rate_bases
+        # stateful phase + --max-failures + a transient internal error (errored scenarios vs. the limit)
+        bases = bases + [{"ops": ["ok"], "links": "bad", "phases": ["stateful"], "workers": 1, "max_failures": 1, "cof": False,
+                          "unique": False, "mf_fault": occ} for occ in ((1, 2) if quick else (1, 2, 3, 4, 6))]
     plain = []
     for i, b in enumerate(bases):
         d = _norm(b)
@@ -157,6 +164,8 @@ def variants(base: dict, ref: dict, recipe: dict, rng: random.Random) -> list[di
     stops = list(range(1, nev))  # stopping after the last event is a no-op
     if base.get("rate"):
         return []
+    if base.get("mf_fault"):
+        return [dict(base, fault={"site": "checks.run", "occ": base["mf_fault"], "exc": "Exception"}, max_examples=6)]
     if recipe["stop"] != "all":
         stops = common.sample(rng, stops, recipe["stop"])
     for k in stops:
@@ -228,11 +237,12 @@ def run_property(ctx: Ctx, pid: str, design_cfgs: list[str]) -> Outcome:
     out = Outcome()
     rng = random.Random(ctx.seed * 7919 + int(pid[1:]))
     t0 = time.time()
-    # 1. design model
+    # 1. design models (Engine.tla = plan + unit phases; Stateful.tla = stateful phase)
     states = transitions = 0
     design = []
     for cfg in design_cfgs:
-        res = tlc.require_ok(tlc.run_tlc("Engine", cfg, timeout=3000, coverage=False), "Engine design model " + cfg)
+        module = "Stateful" if cfg.startswith("Stateful") else "Engine"
+        res = tlc.require_ok(tlc.run_tlc(module, cfg, timeout=3000, coverage=False), "design model " + cfg)
         states += res.distinct
         transitions += res.generated
         design.append({"cfg": cfg, "distinct": res.distinct, "generated": res.generated, "violated": res.violated, "wall_s": round(res.wall_s, 1)})
@@ -240,6 +250,14 @@ def run_property(ctx: Ctx, pid: str, design_cfgs: list[str]) -> Outcome:
             out.violations.append(Violation("%s:design:%s:%s" % (pid, cfg, inv),
                                             "design model %s violates %s" % (cfg, inv),
                                             {"kind": "design", "cfg": cfg, "invariant": inv, "trace": res.counterexample[:120]}))
+    # vacuity guard: with a Fix* flag switched off (the design of the code before its repair) TLC must find the violation
+    refuted = []
+    for cfg, inv in OLD_DESIGNS:
+        module = "Stateful" if cfg.startswith("Stateful") else "Engine"
+        res = tlc.require_ok(tlc.run_tlc(module, cfg, timeout=900), "old design " + cfg)
+        if inv not in res.violated:
+            raise tlc.TLCFailure("%s: expected %s to be violated by the old design, got %s - the specification lost its teeth" % (cfg, inv, res.violated))
+        refuted.append(cfg)
     t_design = time.time() - t0
     # 2. family
     fam, fres = load_family()
@@ -301,7 +319,7 @@ def run_property(ctx: Ctx, pid: str, design_cfgs: list[str]) -> Outcome:
         "rule": "descriptors = seeded stratified sample of the TLC-enumerated EngineFamily (%d descriptors); per descriptor one undisturbed run plus "
                 "every/sampled stop position, Ctrl-C position and single fault per the recipe of %s; non-trivial = run with a bad API answer or a disturbance" % (len(fam), pid),
         "exhaustive": False,
-        "design_models": design,
+        "design_models": design, "old_designs_refuted": refuted,
         "forced_schedules": sinfo,
         "family_size": len(fam), "base_descriptors": len(plain), "disturbed_runs": len(todo), "faults_fired": fired,
         "accepted": len(accepted), "rejected_own": own, "rejected_foreign": sum(foreign.values()),
